@@ -1776,6 +1776,11 @@ class _AssociationDict(_AssociationCollection[_VT], MutableMapping[_KT, _VT]):
     ) -> Union[_VT, _T]: ...
 
     def pop(self, __key: _KT, /, *arg: Any, **kw: Any) -> Union[_VT, _T]:
+        if __key not in self.col:
+            if arg:
+                return arg[0]  # type: ignore[no-any-return]
+            elif "default" in kw:
+                return kw["default"]  # type: ignore[no-any-return]
         member = self.col.pop(__key, *arg, **kw)
         return self._get(member)
 
